@@ -534,10 +534,15 @@ def _hooke_nontrivial(ctx, nu, states, idx):
     ctx.label("nu<0" if nu < 0 else ("nu>0.45" if nu > 0.45 else "nu:0..0.45"))
 
 
-def _cmp_states(got, want, tol_rel, what, bucket, cond):
-    for g, w in zip(got, want):
+def _cmp_states(got, want, tol_rel, what, bucket, cond, inputs=None, per_unit=0.0):
+    """Component-wise comparison. Tolerance: tol_rel * cond * (largest component of the result); for a compliance (strain from
+    stress) additionally tol_rel * per_unit * (largest component of the *input* state): e = (s_ii - nu (s_jj + s_kk)) / E
+    cancels for nearly hydrostatic states with nu -> 1/2, the rounding error stays eps |s| / E while the result shrinks."""
+    for k, (g, w) in enumerate(zip(got, want)):
         m = max([abs(x) for x in w] + [abs(x) for x in g if math.isfinite(x)] + [0.0])
         tol = tol_rel * cond * m
+        if inputs is not None:
+            tol = max(tol, tol_rel * per_unit * max(abs(x) for x in inputs[k]))
         for j, (a, b) in enumerate(zip(g, w)):
             if not _close(a, b, tol):
                 raise Violation("%s: component %d = %r, expected %r (state %r, tol %.3g)" % (what, j, a, b, w, tol), bucket=bucket)
@@ -563,9 +568,13 @@ def hooke_identity(case, ctx):
     # 3D
     h3 = HL.HookesLaw3d(E, nu)
     e3 = _hooke_call(h3.strain, states, kind)
-    _cmp_states(e3, [lame_strain(E, nu, s) for s in states], TOL_H, "HookesLaw3d.strain vs Lame form", "hooke3d:strain_ref", 1.0)
+    _cmp_states(e3, [lame_strain(E, nu, s) for s in states], TOL_H, "HookesLaw3d.strain vs Lame form", "hooke3d:strain_ref", 1.0,
+                inputs=states, per_unit=2.0 / E)
     s3 = _hooke_call(h3.stress, states, kind)
-    _cmp_states(s3, [lame_stress(E, nu, s) for s in states], TOL_H, "HookesLaw3d.stress vs Lame form", "hooke3d:stress_ref", 1.0)
+    # stiffness: factor1 * ((1-nu) e11 + nu (e22 + e33)) with factor1 ~ E cond; the bracket cancels to O(1-2nu) of its terms,
+    # so the rounding of the terms (and of the strains themselves) is amplified by cond whatever the formula: eps * lambda * |e|.
+    # Seen in the thorough tier at nu = 0.4999, e = (0.5, 1e-6, -0.5): 2.5e-8 on 7.0e4 (3.6e-13 relative, cond = 3334).
+    _cmp_states(s3, [lame_stress(E, nu, s) for s in states], TOL_H, "HookesLaw3d.stress vs Lame form", "hooke3d:stress_ref", cond)
     _cmp_states(_hooke_call(h3.stress, e3, kind), states, TOL_H, "HookesLaw3d.stress(strain(s))", "hooke3d:roundtrip", cond)
     _cmp_states(_hooke_call(h3.strain, s3, kind), states, TOL_H, "HookesLaw3d.strain(stress(e))", "hooke3d:roundtrip_inv", cond)
     # plane stress: (s11, s22, s12) -> (e11, e22, e33, g12) -> stress(e11, e22, g12)
@@ -625,8 +634,10 @@ def hooke_reductions(case, ctx):
     es = _hooke_call(hs.strain, plane, kind)                                        # e11 e22 e33 g12
     full_s0 = [[p[0], p[1], zero, p[2], zero, zero] for p in plane]
     e30 = _hooke_call(h3.strain, full_s0, kind)
-    _cmp_states(es, [[x[0], x[1], x[2], x[3]] for x in e30], TOL_H, "PlaneStress.strain vs HookesLaw3d.strain(s33=0)", "plane_stress:vs_3d", 1.0)
-    _cmp_states(es, [[x[0], x[1], x[2], x[3]] for x in (lame_strain(E, nu, s) for s in full_s0)], TOL_H, "PlaneStress.strain vs Lame form (s33=0)", "plane_stress:vs_ref", 1.0)
+    _cmp_states(es, [[x[0], x[1], x[2], x[3]] for x in e30], TOL_H, "PlaneStress.strain vs HookesLaw3d.strain(s33=0)", "plane_stress:vs_3d", 1.0,
+                inputs=plane, per_unit=2.0 / E)
+    _cmp_states(es, [[x[0], x[1], x[2], x[3]] for x in (lame_strain(E, nu, s) for s in full_s0)], TOL_H, "PlaneStress.strain vs Lame form (s33=0)", "plane_stress:vs_ref", 1.0,
+                inputs=plane, per_unit=2.0 / E)
     # ---- plane stress, strains given: 3D law with the e33 that plane stress implies gives s33 = 0
     ss = _hooke_call(hs.stress, plane, kind)                                        # s11 s22 s12
     full_e2 = [[p[0], p[1], -nu / (1 - nu) * (p[0] + p[1]), p[2], zero, zero] for p in plane]
